@@ -67,6 +67,7 @@ func c15Run(t *testing.T, s *sim.Scn) *sim.Outcome {
 	height := uint64(0)
 	var lastTxs [][]byte
 	var lastRoot []byte
+	lastPrev := map[string][]byte{} // per instance: the root the last block was executed on
 	extras := 0
 	execAll := func(step int, txs [][]byte, order int64) bool {
 		height++
@@ -74,6 +75,7 @@ func c15Run(t *testing.T, s *sim.Scn) *sim.Outcome {
 		for k := 0; k < 3; k++ {
 			idx := (int(order) + k) % 3
 			in := insts[idx]
+			lastPrev[in.name] = prev[in.name]
 			root, _, err := in.ex.ExecuteTxs(ctx, txs, height, gt.Add(time.Duration(height)*time.Second), prev[in.name])
 			if err != nil {
 				o.Fail("C15/valid-block-failed", "", step, fmt.Sprintf("%s: block %d: %v", in.name, height, err), "a well-formed block executes")
@@ -145,7 +147,8 @@ func c15Run(t *testing.T, s *sim.Scn) *sim.Outcome {
 				continue
 			}
 			for _, in := range insts[:2] {
-				root, _, err := in.ex.ExecuteTxs(ctx, lastTxs, height, gt, prev[in.name])
+				// a replay passes what the first execution passed: the root before that block
+				root, _, err := in.ex.ExecuteTxs(ctx, lastTxs, height, gt, lastPrev[in.name])
 				if err != nil || !bytes.Equal(root, lastRoot) {
 					o.Fail("C15/re-execution-changes-root", "", i, fmt.Sprintf("%s: re-executing block %d gives err=%v root=%q, first time %q", in.name, height, err, truncate(root), truncate(lastRoot)), "re-executing a block is harmless")
 					return o
